@@ -56,12 +56,15 @@ META = dict(
          "tour: evalTime_never_stops); the leg/place/window scan only returns placements the constraint model accepted (evalJob_accepted, "
          "evalJob_sound_time); capacity: the test on cached max-past/max-future/current implies the full load profile stays within "
          "capacity for every demand shape, in every dimension (cap_sound1 for one dimension; cap_sound_vec for the executable vector model with any "
-         "number of dimensions: every component of the vector profile and caches IS the one-dimensional model, map_pr_loadProfile / "
+         "number of dimensions; cap_complete1 / cap_exact1: on a tour with non-negative loads and for demands without a static pickup next to a "
+         "larger dynamic delivery the O(1) test refuses nothing the profile admits, the caches being attained - runMax1_attained, "
+         "maxFuture1_attained; every component of the vector profile and caches IS the one-dimensional model, map_pr_loadProfile / "
          "map_pr_runMax / map_pr_maxFuture, and a vector verdict `none` gives the one-dimensional verdict in every component, viol1_of_vec). "
          "Tie: exact differential run (position, place, window, cost vector, schedule) of the real eval_job_insertion_in_route for Any and "
          "every Concrete(p) against the model, plus brute-force simulation oracles on the implementation's own placements (soundness for "
          "single and multi-task jobs, completeness of Any for single-task jobs).",
     note=COMMON_NOTE + " Partial: whole-evaluator completeness is decided by the brute-force oracle on generated cases (the theorem covers the "
-         "time test and capacity soundness in any number of dimensions); capacity completeness is not proved.",
+         "time test, capacity soundness in any number of dimensions and capacity exactness in one dimension for the demand shapes the readers "
+         "produce: cap_complete1, cap_exact1); the completeness of the leg/place/window scan as a whole is not proved.",
     technique="Lean 4 induction over tour suffixes (omega) + exact differential correspondence with the real evaluator + brute-force simulation oracle",
 )
